@@ -10,6 +10,10 @@ CLAIMED = {
  "C04": dict(level="other", technique="static analysis: who-writes query + path-sensitive must-guard dataflow + dominance/post-dominance pairing over rustc MIR",
    text="Decides the structural clauses of C04 for all inputs/histories: the input image has exactly one (guarded) writer; the copy is guarded on every path class by state, reply kind, status, exact length and the request-side service selector; FDL reply admission and DP routing guards; DataExchanged iff update; request PDU = output image under Operate. Does not re-prove byte equality of copy_from_slice (library contract).",
    note="Trusted: " + TB + "; copy_from_slice contract. Clause keys are semantic (fields, callees, variants), never line numbers.", ref="§4-C04"),
+
+ "C03": dict(level="other", technique="static analysis: typestate edge extraction from stores (must-guard dataflow with mod-set kill), request/SAP table extraction, writer-table agreement with exact-execution counters over rustc MIR",
+   text="Decides for all reply/loss/fault histories of one peripheral: every store to the bring-up state is an edge whose rank rise is at most one and which carries its acknowledgement guard (accepted diagnostics / short confirmation / the four readiness flag tests by PROFIBUS bit value); constructors start Offline and re-addressing resets; per-state request table (SAPs, service, addresses); Set_Prm/Chk_Cfg octet layout with every optional bit written exactly when configured. Does not decide the watchdog factor arithmetic or multi-peripheral interleavings.",
+   note="Trusted: " + TB + "; rules/spec_tables.json (DP-V0 constants).", ref="§4-C03"),
 }
 
 NA = {
